@@ -55,3 +55,10 @@ PROPS["C01"] = dict(
                 "store_results/save_results/get_links_for_node/Demands.at under contract (see functions_under_contract).",
     trusted_base=[AML_TRUST, CPP_TRUST], not_decided=["floating point"], assumptions=[],
 )
+
+PROPS["C02"] = dict(
+    level="proof",
+    explanation="every head-loss builder executed symbolically for an arbitrary link in every (user status, internal status, isolated, end-node kinds) case; "
+                "rows compared with the law of the type written from the property text; params, constants, cubic_spline, status properties under contract.",
+    trusted_base=[AML_TRUST, CPP_TRUST], not_decided=["pumps never report reverse flow (emergent, network-level)", ">=3-point pump curve fit (scipy curve_fit) is bounded only"], assumptions=[],
+)
